@@ -80,6 +80,12 @@ class Ctx:
         self.extra = {}
         self.nreplay = 0
         self.known = [k for k in load_known() if k.get('property') == prop]
+        try:
+            from . import fingerprint
+            self.changed = fingerprint.deepen(prop)      # sources that differ from the ones the models were validated against
+        except Exception:
+            self.changed = []
+        if self.changed: self.extra['source_files_changed'] = self.changed; self.extra['deepened'] = True
 
     def replay_path(self):
         self.nreplay += 1
